@@ -466,18 +466,18 @@ Definition prepare_cmd (c : cmd) (w : world) : option (ent * setup * cleanup * w
   match c with
   | CSysCmd t => Some (t, SuDefault, ClDefault, w)
   | CEventCmd t d =>
-      let (k, w) := fresh_ticket w in Some (t, SuSysEvent k, ClSysEvent, w <| tr_se ::= trk_prepare k t d |>)
+      let (k, w) := fresh_ticket w in Some (t, SuSysEvent k, ClSysEvent, note_prep k t [PiSe d] (w <| tr_se ::= trk_prepare k t d |>))
   | CReact (RcResource t) => Some (t, SuDefault, ClDefault, w)
   | CReact (RcEntity src rt t) =>
-      let (k, w) := fresh_ticket w in Some (t, SuEntity k, ClEntity, w <| tr_er ::= trk_prepare k t (t, src, rt) |>)
+      let (k, w) := fresh_ticket w in Some (t, SuEntity k, ClEntity, note_prep k t [PiEr src rt] (w <| tr_er ::= trk_prepare k t (t, src, rt) |>))
   | CReact (RcDespawn src t h) =>
-      let (k, w) := fresh_ticket w in Some (t, SuDespawn k, ClDespawn, w <| tr_de ::= trk_prepare k t (src, Some h) |>)
+      let (k, w) := fresh_ticket w in Some (t, SuDespawn k, ClDespawn, note_prep k t [PiDe src] (w <| tr_de ::= trk_prepare k t (src, Some h) |>))
   | CReact (RcEntityEvent tgt d t) =>
       let (k, w) := fresh_ticket w in
       Some (t, SuEntityEvent k, ClEntityEvent,
-            w <| tr_er ::= trk_prepare k t (t, tgt, REvent UNIT_TY) |> <| tr_ev ::= trk_prepare k t d |>)
+            note_prep k t [PiEr tgt (REvent UNIT_TY); PiEv d] (w <| tr_er ::= trk_prepare k t (t, tgt, REvent UNIT_TY) |> <| tr_ev ::= trk_prepare k t d |>))
   | CReact (RcBroadcast d t) =>
-      let (k, w) := fresh_ticket w in Some (t, SuBroadcast k, ClBroadcast, w <| tr_ev ::= trk_prepare k t d |>)
+      let (k, w) := fresh_ticket w in Some (t, SuBroadcast k, ClBroadcast, note_prep k t [PiEv d] (w <| tr_ev ::= trk_prepare k t d |>))
   | _ => None
   end.
 
@@ -614,6 +614,8 @@ Fixpoint exec (fuel : nat) (i : instr) (w : world) {struct fuel} : result world 
         (* run_initialized_system (callbacks.rs:207-239) around the harness body *)
         (* an undeclared system id gets the default declaration (plain, unit, does not take), as in the harness *)
         let sd := sys_or_default t in
+        (* ghost assertion (Stuck 5): what the readers expose is exactly what this run's own setup claimed *)
+        if negb (fresh_claim_b t w) then Stuck 5 else
         let w := body_begin sd t runno captured w in
         match sd_kind sd with
         | Plain =>
